@@ -186,7 +186,18 @@ pub fn gen_history(rng: &mut Rng, max_steps: usize, go: &GenOpts, with_crash: bo
                     tree = mutate_tree(rng, &tree, go, &mut clock);
                     steps.push(Step::SetTree(tree.clone()));
                 }
-                steps.push(Step::BackupCrash(gen_params(rng), rng.below(1000) as u32, 1000));
+                // one in four: killed between the two micro-steps of the LAST write (the tail exists, zero-length),
+                // after the entry that sorted last was removed from the tree
+                let at = if rng.chance(1, 4) { 999 } else { rng.below(1000) as u32 };
+                if at == 999 {
+                    let mut keys: Vec<String> = tree.nodes.keys().filter(|k| *k != "/").cloned().collect();
+                    keys.sort_by(|a, b| crate::c11::doc_cmp(a, b));
+                    if let Some(last) = keys.last().cloned() {
+                        tree.nodes.remove(&last);
+                        steps.push(Step::SetTree(tree.clone()));
+                    }
+                }
+                steps.push(Step::BackupCrash(gen_params(rng), at, 1000));
                 bands += 1;
                 // usually resume straight away
                 if rng.chance(2, 3) {
@@ -370,6 +381,17 @@ pub fn run_history(steps: &[Step], o: &HistOpts, report: &mut Report, case_id: &
                 let r = real_backup(&arch, &src, &params, IceptConfig { crash_at: Some(k), ..Default::default() });
                 rec.crashed = true;
                 rec.real = Some(r);
+                // killed after the tail file was created (even still zero-length): every entry has been
+                // recorded and the tool treats the version as complete — it must then restore to the source
+                // (Lean: Gaps.interrupted_listing_tail_started)
+                {
+                    let (st, _) = abstract_archive(&arch);
+                    let before: std::collections::BTreeSet<u32> = all_bands(&state).into_iter().collect();
+                    if let Some(b) = complete_bands(&st).into_iter().max().filter(|b| !before.contains(b)) {
+                        run.snapshots.insert(b, obs.clone());
+                        report.hit("crash-state:tail-started-counts-as-complete");
+                    }
+                }
                 report.hit(&format!("crash-at:{}", if k == 0 { "0".to_string() } else if k * 4 < n { "first-quarter".into() } else if k * 4 < 3 * n { "middle".into() } else { "last-quarter".into() }));
             }
             Step::Delete(bands, dry) => {
